@@ -40,15 +40,16 @@ def run_real_case(case: dict) -> Optional[dict]:
         before = wire.canon_value(ctx, rx)
         obs = build.run_real(ctx, rv, rx, mode)
         obs["mutated"] = wire.canon_value(ctx, rx) != before
+        obs["xd"] = before     # as built for this run (set iteration order can differ between builds)
         out[mode] = obs
     out["xd"] = xd
     return out
 
 
-def model_requests(case: dict, xd: dict) -> List[dict]:
-    tabs = oracle.tables(case["v"], case.get("env", []), xd)
-    return [{"op": "run", "mode": m, "env": case.get("env", []), "v": case["v"], "x": xd, "oracle": tabs,
-             "fuel": case.get("fuel", 400)} for m in MODES]
+def model_requests(case: dict, real: dict) -> List[dict]:
+    tabs = oracle.tables(case["v"], case.get("env", []), real["xd"])
+    return [{"op": "run", "mode": m, "env": case.get("env", []), "v": case["v"], "x": real[m]["xd"],
+             "oracle": tabs, "fuel": case.get("fuel", 400)} for m in MODES]
 
 
 FIELDS_ALL = ("out", "trace")
